@@ -1335,7 +1335,26 @@ func (p *Parser) expression() (Expr, *ParseError) {
 // It handles shift/arithmetic operators but stops at > and >= tokens
 // to avoid consuming the template-closing >.
 func (p *Parser) templateArgExpr() (Expr, *ParseError) {
-	return p.templateShift()
+	left, err := p.templateShift()
+	if err != nil {
+		return nil, err
+	}
+	// bitwise_expression: one of & | ^ repeated between unary expressions (array<i32, A & 3>)
+	for _, kind := range []TokenKind{TokenAmpersand, TokenPipe, TokenCaret} {
+		if !p.check(kind) {
+			continue
+		}
+		for p.check(kind) {
+			op := p.advance()
+			right, err := p.unary()
+			if err != nil {
+				return nil, err
+			}
+			left = &BinaryExpr{Left: left, Op: op.Kind, Right: right}
+		}
+		break
+	}
+	return left, nil
 }
 
 // templateShift parses << expressions inside template args (>> would be template close).
